@@ -142,9 +142,12 @@ enum Path {
     NextOpen,
     /// some_call(..).returns(v).once().then().returns(w) – w is multi-use
     SomeOnceThen,
+    /// next_call(..).returns(v), listed after an exactly quantified any-order clause of another
+    /// method (which takes no part in the ordered sequence)
+    NextAfterExact,
 }
 
-const PATHS: [Path; 4] = [Path::SomeOpen, Path::SomeOnce, Path::NextOpen, Path::SomeOnceThen];
+const PATHS: [Path; 5] = [Path::SomeOpen, Path::SomeOnce, Path::NextOpen, Path::SomeOnceThen, Path::NextAfterExact];
 
 /// Number of owned tokens in the configured value of a shape.
 fn n_tokens(shape: Shape) -> usize {
@@ -160,6 +163,11 @@ macro_rules! single_use_clause {
             Path::SomeOpen => $out.push($mf.some_call(matching!()).returns($value)),
             Path::SomeOnce => $out.push($mf.some_call(matching!()).returns($value).once()),
             Path::NextOpen => $out.push($mf.next_call(matching!()).returns($value)),
+            Path::NextAfterExact => {
+                $out.push(TMock::copt.some_call(matching!()).returns(None::<CTok>));
+                $out.push(TMock::ctok.each_call(matching!()).panics("unused").n_times(2));
+                $out.push($mf.next_call(matching!()).returns($value))
+            }
             Path::SomeOnceThen => unreachable!(),
         }
     };
@@ -293,7 +301,7 @@ fn check_single_use(shape: Shape, path: Path, routing: &[u8], by_verify: bool) -
                 match &r {
                     Err(msg) if matches!(classify(msg), PanicClass::MoreThanOnce) => summary.push("refused".to_string()),
                     // an ordered pattern with one slot refuses by call order
-                    Err(msg) if path == Path::NextOpen && matches!(classify(msg), PanicClass::OutOfRange) => summary.push("refused-order".to_string()),
+                    Err(msg) if matches!(path, Path::NextOpen | Path::NextAfterExact) && matches!(classify(msg), PanicClass::OutOfRange) => summary.push("refused-order".to_string()),
                     other => return Err(format!("request {}: a single-use value was already handed out, expected a panic, observed {other:?}", k + 1)),
                 }
             }
